@@ -674,7 +674,10 @@ class Interp:
         stp = ev(node.slice.step) if node.slice.step else None
         if any(isinstance(x, Opaque) for x in (lo, hi, stp)):
           return Opaque('slice')
-        return base[lo:hi:stp]
+        try:
+          return base[lo:hi:stp]
+        except TypeError:
+          return Opaque('slice')
       key = ev(node.slice)
       if isinstance(base, Opaque):
         return Opaque(f'{base.tag}[]')
@@ -709,7 +712,20 @@ class Interp:
     if isinstance(node, (ast.ListComp, ast.GeneratorExp, ast.SetComp, ast.DictComp)):
       return self.comprehension(node, module, env, depth)
     if isinstance(node, ast.JoinedStr):
-      return Opaque('fstring')
+      # an f-string of plain values (str / int / bool / None / enum names are not formatted here) without format specs
+      parts = []
+      for v in node.values:
+        if isinstance(v, ast.Constant):
+          parts.append(str(v.value))
+          continue
+        if not isinstance(v, ast.FormattedValue) or v.format_spec is not None or v.conversion not in (-1, 115):
+          return Opaque('fstring')
+        x = ev(v.value)
+        if isinstance(x, bool) or x is None or isinstance(x, (str, int)):
+          parts.append(str(x))
+        else:
+          return Opaque('fstring')   # reprs of bytes / floats / objects are not modelled
+      return ''.join(parts)
     if isinstance(node, ast.Starred):
       return ev(node.value)
     return Opaque(type(node).__name__)
@@ -839,6 +855,8 @@ class Interp:
       return ('method', base, attr)
     if isinstance(base, Ext):
       return Ext(f'{base.name}.{attr}')
+    if base is None:
+      raise _Raise('AttributeError', f"'NoneType' object has no attribute '{attr}'", node)
     return Opaque(f'attr.{attr}')
 
   def _class(self, fq: str) -> Optional[index.ClassInfo]:
@@ -895,13 +913,22 @@ class Interp:
       if r is not _NO:
         return r
     if fname in ('copy.deepcopy', 'copy.copy'):
+      if fname.endswith('.copy') and isinstance(args[0], Obj):
+        return Obj(args[0].cls, dict(args[0].fields), args[0].nocmp)   # a new object, the same field values
       return _copy.deepcopy(args[0]) if fname.endswith('deepcopy') else _copy.copy(args[0])
     if fname == 'dataclasses.asdict':
       return self._asdict(args[0], kwargs.get('dict_factory'), depth)
     if fname == 'dataclasses.replace' and isinstance(args[0], Obj):
-      o = _copy.deepcopy(args[0])
+      # dataclasses.replace builds a NEW object from the old one's field values (shared, not copied) and the changes
+      unknown = [k for k in kwargs if k not in args[0].fields]
+      if unknown:
+        raise _Raise('TypeError', f'replace() got an unexpected field {unknown[0]!r}', node)
+      o = Obj(args[0].cls, dict(args[0].fields), args[0].nocmp)
       o.fields.update(kwargs)
-      o.touch()
+      ci = self._class(o.cls)
+      post = ci.methods.get('__post_init__') if ci is not None else None
+      if post is not None:
+        self.call_function(post, [o], {}, depth + 1)
       return o
     if fname == 'frozenset.union':
       try:
